@@ -152,3 +152,55 @@ Definition C07_files_final_agree : Prop :=
     chain_ok canon -> incl canon U -> eventual_tip c w canon ->
     let merged := filter (fun b => bnum b <? merged_end) canon in
     files_final c w merged -> files_agree c w merged.
+
+(* ------------------------------------------------------------------ from a cursor the hub serves *)
+
+(* the consumer at the cursor as ONE run K hanging under the cursor-LIB block L (its canonical and forked
+   blocks together), all blocks of the universe; for an Undo cursor the undone block X sits on top *)
+Definition consumer_at (U : list block) (cu : cursor) (L : block) (K : list block) : Prop :=
+  bref L = cu_lib cu /\ Forall (fun x => In x U) K /\
+  ((cu_step cu <> SUndo /\ branch_from L K /\ bref (last K L) = cu_blk cu) \/
+   (cu_step cu = SUndo /\ exists X, In X U /\ bref X = cu_blk cu /\ branch_from L (K ++ [X]))).
+
+(* The hub serves the cursor when the stream starts: the stream is live from its first event (no files, hence
+   no files_agree).  The burst (C05) applied to the consumer, then the live events: discipline for every
+   outcome; when the stream ends waiting at the head the consumer holds, above L, exactly canon. *)
+Definition C07_seamless_cursor_live : Prop :=
+  forall (U : list block) (c : jcfg) (w : world) (ps : list (N * N)) (merged_end : N) (canon forked : list block)
+         (cu : cursor) (L : block) (K : list block) (burst : list event),
+    wf_b U = true -> lib_ok_b LNone U = true ->
+    hub_of_universe U c w ->
+    chain_ok canon -> incl canon U ->
+    eventual_tip c w canon ->
+    j_mode c = 1 -> j_cursor c = Some cu -> j_filter c = 0 -> j_stop c = 0 ->
+    In L canon -> consumer_at U cu L K ->
+    h_ready (w_hub w) = true -> blocks_from_cursor (h_f (w_hub w)) cu = BOk burst ->
+    let res := stream_run c w ps merged_end (filter (fun b => bnum b <? merged_end) canon) forked in
+    exists c', cons_fold_aside (mkCons (rev K) 0 false) (map as_new (fst res)) = Some c' /\
+               (snd res = JNil -> above (rn (cu_lib cu)) (rev (cs_stack c')) = above (rn (cu_lib cu)) canon).
+
+(* ------------------------------------------------------------------ from a cursor: both cases *)
+
+(* C07_seamless_cursor_files without its "the hub does not serve the cursor" hypothesis; the consumer's forked
+   blocks (and the undone block of an Undo cursor) are blocks of the universe *)
+Definition C07_seamless_cursor : Prop :=
+  forall (U : list block) (c : jcfg) (w : world) (ps : list (N * N)) (merged_end : N) (canon forked : list block)
+         (cu : cursor) (L : block) (rest hc hf : list block),
+    wf_b U = true -> lib_ok_b LNone U = true ->
+    hub_of_universe U c w ->
+    chain_ok canon -> incl canon U ->
+    let merged := filter (fun b => bnum b <? merged_end) canon in
+    eventual_tip c w canon -> files_agree c w merged ->
+    j_mode c = 1 -> j_cursor c = Some cu -> j_filter c = 0 -> j_stop c = 0 ->
+    0 < j_bundle c -> Forall (fun b => bnum b < file_bound) merged ->
+    from_num (rn (cu_lib cu)) canon = L :: rest -> bref L = cu_lib cu ->
+    cursor_state canon forked cu L hc hf ->
+    Forall (fun x => In x U) hf ->
+    (cu_step cu = SUndo -> exists X, In X U /\ bref X = cu_blk cu /\ branch_from L (hc ++ hf ++ [X])) ->
+    let res := stream_run c w ps merged_end merged forked in
+    exists c', cons_fold_aside (mkCons (rev (hc ++ hf)) 0 false) (map as_new (fst res)) = Some c' /\
+               (snd res = JNil ->
+                  fst res = [] \/
+                  rev (cs_stack c') = above (rn (cu_lib cu)) merged \/
+                  (exists r1 rest1, rest = r1 :: rest1 /\ from_num (bnum r1) (rev (cs_stack c')) = rest) \/
+                  above (rn (cu_lib cu)) (rev (cs_stack c')) = rest).
